@@ -167,7 +167,7 @@ class C20(Prop):
                    'garbage collection: the Deferred is dropped and gc.collect() is run inside the case; CPython reference counting semantics are assumed',
                    'SynchronousDeferredRunTest: only the reported outcome kind is compared (not details or tracebacks)']
 
-    _manifest_pending = {
+    manifest = {
         'text': 'Theorems for every Deferred state and every history of fire / add-callback / chained-Deferred resume / match / extract operations: the '
                 'matchers as implemented (capturing pass-through callbacks added by on_deferred_result, addErrback on an inspected failure) refine their '
                 'declaration - has_no_result, succeeded(m), failed(m) match iff the state is no-result / ok v and m(v) / fail e and m(e); exactly one of the '
